@@ -146,7 +146,7 @@ fn main() {
 
     // Stages: (name, configurations, layer seeds, [(operations, bases)]).
     //  dims  - every dimension 2..=64 (SIMD lanes of 8 + remainder), short histories from the full base
-    //  main  - dims {2,8}, tight graph regime: quick <= 3 operations from all bases + 4 from b7; thorough <= 5
+    //  main  - dims {2,8}, tight graph regime: quick <= 3 operations from all bases + 4 from b7; thorough <= 4 with layer seeds {1,2}, 5 with seed 1
     //  roomy - thorough only: second graph regime, <= 4 operations
     let all: Vec<&'static str> = BASES.to_vec();
     let all_dims: Vec<usize> = (2..=64).collect();
@@ -162,7 +162,8 @@ fn main() {
         vec![
             ("dims", dims_cfgs.clone(), vec![1, 2], vec![(0, vec!["b4", "b7"]), (1, vec!["b4", "b7"]), (2, vec!["b4", "b7"])]),
             ("roomy", roomy.clone(), vec![1], (0..=4).map(|d| (d, all.clone())).collect()),
-            ("main", tight.clone(), vec![1, 2], (0..=5).map(|d| (d, all.clone())).collect()),
+            ("main", tight.clone(), vec![1, 2], (0..=4).map(|d| (d, all.clone())).collect()),
+            ("main", tight.clone(), vec![1], vec![(5, all.clone())]),
         ],
     );
     let mut completed: Vec<String> = Vec::new();
